@@ -116,18 +116,6 @@ func (m *mmodel) bottomRight() []int {
 	return nil
 }
 
-func intsEq(a, b []int) bool {
-	if (a == nil) != (b == nil) || len(a) != len(b) {
-		return false
-	}
-	for i := range a {
-		if a[i] != b[i] {
-			return false
-		}
-	}
-	return true
-}
-
 // interesting x positions: word boundaries
 func edgeX(r *fw.Rand, w int) int {
 	if r.Intn(3) == 0 {
@@ -268,16 +256,6 @@ func paddingDirty(bm *gozxing.BitMatrix) bool {
 		}
 	}
 	return false
-}
-
-func rowFromBools(bs []bool) *gozxing.BitArray {
-	a := gozxing.NewBitArray(len(bs))
-	for i, v := range bs {
-		if v {
-			a.Set(i)
-		}
-	}
-	return a
 }
 
 func c16Matrix(r *fw.Rec, w, h int) {
@@ -446,18 +424,6 @@ func c16Matrix(r *fw.Rec, w, h int) {
 	if w%32 == 0 {
 		r.Tally("matrix_sequences_width_multiple_of_32")
 	}
-}
-
-func firstWords(s string, n int) string {
-	f := strings.Fields(s)
-	if len(f) > n {
-		f = f[:n]
-	}
-	w := strings.Join(f, " ")
-	if i := strings.IndexAny(w, "(="); i > 0 {
-		w = w[:i]
-	}
-	return w
 }
 
 // ---- BitArray ----
